@@ -185,4 +185,33 @@ PROPS = {
                       'chain ports tokensFor is the tokens-per-fill of the chain; once an updater is installed every update pushes exactly one limit; late creation starts from the current listener. Validated end to end.',
         'level_note': 'Trusted: Lean kernel; Kitex limit.Option / Updater; extractor; harness. MaxConnections is observed to stay unlimited in every run (spec check), not modelled further.',
     },
+    'C11': {
+        'rule': 'type-directed generator over every field the decoders read, built with the real proto types and marshalled: listeners (0-3 filter chains + optional default chain, destination port wrapper present/absent, filters: config discovery / other URL / Thrift proxy (route config absent, 0-3 routes, match absent, method/service/other, cluster / weighted / header / absent action) / HTTP connection manager (RDS with empty and non-empty name, inline route config, no specifier; 0-3 HTTP filters: discovery, unset, other URL, LocalRateLimit with/without bucket and tokens-per-fill wrapper, TypedStruct with fields present/missing, in every position)), route configurations (0-3 virtual hosts x 0-3 routes; match absent; prefix/path/regex/unset path; 0-3 header matchers of every kind incl. empty patterns, non-compiling regex, suffix, present, unset, duplicate names; action absent/redirect/route with cluster/weighted/header specifier; timeout; retry policy with wrappers present/absent, retriable headers, back-off base/max present/absent), clusters (all discovery types and LB policies, service name, inline assignment, outlier wrappers), load assignments (0-3 localities x 0-4 endpoints, IPv4/IPv6), name tables; 0-3 resources per response with duplicate names; nested and top-level payloads corrupted (truncation, bit flips, appended garbage, wrong type URL). Every response is parsed back by a reference parse (proto.Unmarshal + recursive Any parse) into the message tree the model decodes; the per-field coverage counters are in generator_distribution. ' + 'Listeners and route configurations, 6% of responses with a corrupted/wrongly typed slot. Non-trivial: a response with at least one route or filter chain',
+        'assumptions': COMMON_ASSUME + ['proto.Unmarshal is trusted; the regular-expression compiler and strconv.ParseFloat are oracles of the model (the harness supplies their answers)',
+                                         'durations within the range of time.Duration',
+                                         'KNOWN FINDING S13: two supported conditions on one header name keep only the last (Matchers is a Go map keyed by header name); headers_preserved is stated under distinct names'],
+        'level_text': 'Theorems over all message trees: under distinct names of the supported header conditions the decoded matcher set is exactly the supported conditions in order (headers_preserved; supported = non-empty exact/prefix, non-empty compiling regex); '
+                      'a route keeps its path condition, clusters with weights (single cluster = weight 1), timeout and retry policy (attempts, per-try timeouts, retry-on, back-off base and maximum as sent - with the regenerated fact backoffBaseOk; the two retriable-header extensions); '
+                      'routes and virtual hosts are decoded one for one in order with their names; the rate-limit bucket is found at any position of the HTTP filter chain behind any filters that carry no bucket, in both the typed and TypedStruct form '
+                      '(regenerated fact rateLimitScansAll); an HTTP connection manager yields the named or inline table with the bucket attached; Thrift routes are decoded one for one. A decide-checked theorem exhibits the duplicate-name shadowing (S13).',
+        'level_note': 'Trusted: Lean kernel; proto.Unmarshal; regexp / ParseFloat oracles; extractor (decode facts, direct-access inventory); reference parse of the harness.',
+    },
+    'C12': {
+        'rule': 'type-directed generator over every field the decoders read, built with the real proto types and marshalled: listeners (0-3 filter chains + optional default chain, destination port wrapper present/absent, filters: config discovery / other URL / Thrift proxy (route config absent, 0-3 routes, match absent, method/service/other, cluster / weighted / header / absent action) / HTTP connection manager (RDS with empty and non-empty name, inline route config, no specifier; 0-3 HTTP filters: discovery, unset, other URL, LocalRateLimit with/without bucket and tokens-per-fill wrapper, TypedStruct with fields present/missing, in every position)), route configurations (0-3 virtual hosts x 0-3 routes; match absent; prefix/path/regex/unset path; 0-3 header matchers of every kind incl. empty patterns, non-compiling regex, suffix, present, unset, duplicate names; action absent/redirect/route with cluster/weighted/header specifier; timeout; retry policy with wrappers present/absent, retriable headers, back-off base/max present/absent), clusters (all discovery types and LB policies, service name, inline assignment, outlier wrappers), load assignments (0-3 localities x 0-4 endpoints, IPv4/IPv6), name tables; 0-3 resources per response with duplicate names; nested and top-level payloads corrupted (truncation, bit flips, appended garbage, wrong type URL). Every response is parsed back by a reference parse (proto.Unmarshal + recursive Any parse) into the message tree the model decodes; the per-field coverage counters are in generator_distribution. ' + 'Clusters, load assignments and name tables. Non-trivial: several resources, or optional sub-messages present',
+        'assumptions': COMMON_ASSUME + ['proto.Unmarshal is trusted; net.JoinHostPort is modelled (brackets for hosts containing ":" or "%")',
+                                         'Go map iteration order is irrelevant: results are compared as maps'],
+        'level_text': 'Theorems over all message trees: a cluster keeps name, discovery type (with the default for unknown enum values), LB policy, EDS service name defaulting to the cluster name, outlier percentages and inline endpoints; a load assignment keeps localities and '
+                      'endpoints in order with address, port and weight, an assignment without localities is the explicit no-endpoints value; the name table keeps every host with its addresses; with pairwise distinct names every resource is stored under its own name with its own content, '
+                      'none lost or duplicated (cds_keyed_by_own_name, by induction over the response), duplicates count once (last wins); a response is rejected iff some slot has the wrong type URL or does not decode.',
+        'level_note': 'Trusted: Lean kernel; proto.Unmarshal; harness reference parse.',
+    },
+    'C13': {
+        'rule': 'type-directed generator over every field the decoders read, built with the real proto types and marshalled: listeners (0-3 filter chains + optional default chain, destination port wrapper present/absent, filters: config discovery / other URL / Thrift proxy (route config absent, 0-3 routes, match absent, method/service/other, cluster / weighted / header / absent action) / HTTP connection manager (RDS with empty and non-empty name, inline route config, no specifier; 0-3 HTTP filters: discovery, unset, other URL, LocalRateLimit with/without bucket and tokens-per-fill wrapper, TypedStruct with fields present/missing, in every position)), route configurations (0-3 virtual hosts x 0-3 routes; match absent; prefix/path/regex/unset path; 0-3 header matchers of every kind incl. empty patterns, non-compiling regex, suffix, present, unset, duplicate names; action absent/redirect/route with cluster/weighted/header specifier; timeout; retry policy with wrappers present/absent, retriable headers, back-off base/max present/absent), clusters (all discovery types and LB policies, service name, inline assignment, outlier wrappers), load assignments (0-3 localities x 0-4 endpoints, IPv4/IPv6), name tables; 0-3 resources per response with duplicate names; nested and top-level payloads corrupted (truncation, bit flips, appended garbage, wrong type URL). Every response is parsed back by a reference parse (proto.Unmarshal + recursive Any parse) into the message tree the model decodes; the per-field coverage counters are in generator_distribution. ' + 'All five types, 35% of responses with corrupted or wrongly typed slots plus nested corruption. Recovered panics are observations. Thorough tier: 20x the cases over several seeds (structured mutation; no coverage-guided fuzzing engine is used: go test -fuzz needs a writable build cache for instrumentation and was left out)',
+        'assumptions': COMMON_ASSUME + ['the byte level belongs to proto.Unmarshal (trusted, total, oneof wrappers carry non-nil payloads): the theorems start at its output',
+                                         'which field accesses are direct (not nil-safe getters) is re-read from the decoder sources on every run: an access that is not in the inventory the model was written against breaks the bridge facts_derefs'],
+        'level_text': 'Theorems: for every response proto.Unmarshal can produce (predicate ...Wire: the three directly dereferenced pointers are non-nil), UnmarshalRDS and UnmarshalLDS - including nested HttpConnectionManager, ThriftProxy, LocalRateLimit and TypedStruct payloads - never panic '
+                      '(a non-wire tree does panic in the model, so the hypothesis is not decoration); UnmarshalRDS rejects a response iff a slot has the wrong URL, is not a valid encoding, or contains a route without match or action (rds_error_iff_invalid, both directions); '
+                      'for listeners a bad slot is always an error; clusters / assignments / name table are total by construction and rejected iff a slot is bad (or the name-table response is empty). The executable spec additionally checks error-iff-invalid for listeners with nested payloads on every case.',
+        'level_note': 'Trusted: Lean kernel; proto.Unmarshal; extractor (direct-access inventory); harness reference parse. Coverage-guided fuzzing is not part of the check (structured mutations only).',
+    },
 }
